@@ -249,7 +249,7 @@ def idle_gaps(res: Result, cfg: dict[str, Any], m: ref.Model, hist: list[Any], e
     """Idle time is part of the alphabet.  In the item's state every representative request is sent after 9.9 s,
     10.0 s and 11 s of silence and as second step of 'silence, TesterPresent (with / without suppress bit), request'.
     I1-I3 as usual; moreover the answer and everything the server keeps afterwards (public fields of server.state,
-    their set and the state's type) must be those of the same request(s) without the gap - sent in the item's state
+    and their set) must be those of the same request(s) without the gap - sent in the item's state
     for gaps up to 10 s, in the start state of a fresh server for longer ones (documented inactivity reset)."""
     fresh = vc.Ecu(cfg)
     fresh_snap = fresh.snapshot()
@@ -261,9 +261,9 @@ def idle_gaps(res: Result, cfg: dict[str, Any], m: ref.Model, hist: list[Any], e
         try:
             for q, gap in steps:
                 sent = e.request(q, gap=gap)
-            return ("ok", sent, type(e.srv.state).__name__, e.concrete())
+            return ("ok", sent, e.concrete())
         except Exception as ex:  # noqa: BLE001 - I1
-            return ("raises", ex, None, None)
+            return ("raises", ex, None)
         finally:
             pass
 
@@ -276,14 +276,14 @@ def idle_gaps(res: Result, cfg: dict[str, Any], m: ref.Model, hist: list[Any], e
                 res.count("transitions", len(steps))
                 res.count("evaluations")
                 res.count("idle_gap_cases")
-                tag = f"gap={gap}" + ("" if tp is None else f"+{tp.hex()}")
+                tag = "silence>10s" if gap > 10.0 else "silence<=10s"
                 w = f"{where} after {gap} s of silence" + ("" if tp is None else f" and {tp.hex()}")
                 rp = {"cfg": cfg, "hist": [list(e) for e in hist], "request": q.hex(), "mode": "idle", "gap": gap, "tp": tp.hex() if tp else None}
                 got = run(ecu, snap, steps)
                 if got[0] == "raises":
                     e = got[1]
                     res.violate(
-                        f"C14|raises|{type(e).__name__}|in={_innermost(e)}|sid={_cat(m, q[0])}|len={_lencls(q)}|idle-{tag}",
+                        f"C14|raises|{type(e).__name__}|in={_innermost(e)}|sid={_cat(m, q[0])}|after-{tag}",
                         f"handle_request raised {e!r} :: {w} request={q[:12].hex()}",
                         rp,
                     )
@@ -294,11 +294,11 @@ def idle_gaps(res: Result, cfg: dict[str, Any], m: ref.Model, hist: list[Any], e
                 if want[0] == "raises":
                     continue  # reported by the per-state pass of the state concerned
                 if got[1:] != want[1:]:
-                    what = "reply" if got[1] != want[1] else ("state-type" if got[2] != want[2] else "state-fields")
+                    what = "reply" if got[1] != want[1] else "state-fields"
                     res.violate(
-                        f"C14|idle|{'reset-state-differs-from-start-state' if gap > 10.0 else 'state-changed-without-reset'}|{what}|sid={_cat(m, q[0])}",
-                        f"reply {got[1].hex() if got[1] else None} / state {got[2]} {got[3]} but without the gap "
-                        f"{'from the start state' if gap > 10.0 else ''}: reply {want[1].hex() if want[1] else None} / state {want[2]} {want[3]} :: {w} request={q[:12].hex()}",
+                        f"C14|idle|{'reset-state-differs-from-start-state' if gap > 10.0 else 'state-changed-without-reset'}|{what}|{tag}",
+                        f"reply {got[1].hex() if got[1] else None} / state {got[2]} but without the gap"
+                        f"{' from the start state' if gap > 10.0 else ''}: reply {want[1].hex() if want[1] else None} / state {want[2]} :: {w} request={q[:12].hex()}",
                         rp,
                     )
     ecu.restore(snap)
